@@ -25,7 +25,14 @@ fn gen_atom(r: &mut Rng, depth: usize) -> String {
         5 => format!("({})?", gen_seq(r, depth - 1)),
         6 => format!("({}|{})", gen_seq(r, depth - 1), gen_seq(r, depth - 1)),
         7 => format!("{}+", gen_atom(r, depth - 1)),
-        _ => format!("{}$", gen_atom(r, depth - 1)),
+        _ => {
+            if r.chance(1, 2) {
+                format!("{}$", gen_atom(r, depth - 1))
+            } else {
+                // an end anchor inside an optional group or an earlier alternative: it holds at the end of the SUBJECT only
+                r.pick(&["(a$)?", "(b$|b)", "(c$)?c?", "([ab]$)?", "(a$)|(a)", "(/$)?(/)?"]).to_string()
+            }
+        }
     }
 }
 
